@@ -40,6 +40,12 @@ Inductive case :=
        (impl_rx : eres str)               (* Ast::to_regex, default config *)
        (texts : tset)
        (runs : list prun)
+| CRx (src : str)                         (* a raw regex string, given to the regex crate itself *)
+      (lazy : bool)                       (* RegexBuilder::swap_greed; dot_matches_new_line(true) always *)
+      (compiled : bool)                   (* RegexBuilder::build() = Ok *)
+      (texts : tset)
+      (found0 : list (N * N * N))         (* (i, a, b): find_at(text i, 0) = Some(a..b); None elsewhere *)
+      (found1 : list (N * N * N))         (* find_at(text i, after its first character), for non-empty texts *)
 | CCase (subject : str)                   (* case SUBJECT in ITEMS esac, in the shell *)
         (items : list (list (list achar) * continuation))
         (executed : list nat)             (* indices of the bodies that ran *)
@@ -238,9 +244,39 @@ Definition run_trim_cmd (value : str) (pattern : list achar) (outs : list str) :
   | Some sp => run_trims value p sp trim_forms outs 0%N 0%N
   end.
 
+(* the regex crate against its model: no oracle, a difference is a broken
+   assumption about the external component (verdict 1) *)
+Fixpoint rx_texts (lazy : bool) (r : rx) (idx : N) (texts : list str)
+    (f0 f1 : list (N * N * N)) (acc : verdict) : verdict :=
+  match texts with
+  | [] => if is_nil f0 && is_nil f1 then acc else worse acc 99%N
+  | t :: ts =>
+      let take (f : list (N * N * N)) :=
+        match f with
+        | (i, a, b) :: f' => if N.eqb i idx then (Some (a, b), f') else (None, f)
+        | [] => (None, f)
+        end in
+      let '(g0, f0') := take f0 in
+      let '(g1, f1') := take f1 in
+      let ok0 := range_eqb (rx_find_at lazy r t 0) (to_range g0) in
+      let ok1 := match t with
+                 | [] => is_nil (match g1 with Some _ => [tt] | None => [] end)
+                 | _ :: _ => range_eqb (rx_find_at lazy r t 1) (to_range g1)
+                 end in
+      rx_texts lazy r (N.succ idx) ts f0' f1' (if ok0 && ok1 then acc else worse acc 1%N)
+  end.
+
+Definition run_rx (src : str) (lazy compiled : bool) (ts : tset) (f0 f1 : list (N * N * N)) : verdict :=
+  match parse_rx src with
+  | RxUnsup => 99%N
+  | RxErr => if compiled then 1%N else 0%N
+  | RxOk r => if compiled then rx_texts lazy r 0%N (texts_of ts) f0 f1 0%N else 1%N
+  end.
+
 Definition run_case (c : case) : verdict :=
   match c with
   | CPat src esc pat impl_ast impl_rx ts runs => run_pat src esc pat impl_ast impl_rx ts runs
+  | CRx src lazy compiled ts f0 f1 => run_rx src lazy compiled ts f0 f1
   | CCase subject items executed => run_case_cmd subject items executed
   | CTrim value pattern outs => run_trim_cmd value pattern outs
   end.
